@@ -325,6 +325,10 @@ func Load(ctx context.Context, wd string, env []string, tags string, patterns []
 					}
 					continue
 				}
+				if err := signatureWritableFrom(ins, out.out, pkg.Types); err != nil {
+					ec.add(notePosition(fset.Position(fn.Pos()), fmt.Errorf("inject %s: %v", fn.Name.Name, err)))
+					continue
+				}
 				injectorArgs := &InjectorArgs{
 					Name:  fn.Name.Name,
 					Tuple: ins,
